@@ -1,5 +1,6 @@
 (* C06 - DTCWT back-propagation is the adjoint: the pieces the hand-written backward passes rely on. *)
-From PW Require Import Base.Ops Base.Sum Base.Sig Base.Tensor Model.Dwt Model.Dtcwt Spec.Line Proofs.QuadProofs Proofs.SymExt.
+From PW Require Import Base.Ops Base.Sum Base.Sig Base.Tensor Model.Dwt Model.Dtcwt Spec.Line Spec.DtcwtRef Proofs.QuadProofs Proofs.SymExt
+  Proofs.DwtNF Proofs.DtcwtNF Proofs.QshiftAdj Proofs.QshiftTensor Proofs.TablesProofs.
 
 (* FWD_J1.backward / INV_J1.backward reuse colfilter with the SAME filter: right when the filter is symmetric and odd.
    In a general commutative ring the factor 2 cannot be cancelled; over Z, Q, R it can. *)
@@ -26,3 +27,44 @@ Theorem C06_q2c_c2q_adjoint :
                      (rmul Op (tf y n c (2*i+1) (2*j)) (tf q n c (2*i+1) (2*j)))) (rmul Op (tf y n c (2*i+1) (2*j+1)) (tf q n c (2*i+1) (2*j+1))).
 Proof. intros R Op Rth s y w1r w1i w2r w2i n c i j. exact (q2c_c2q_adjoint Op Rth s y w1r w1i w2r w2i n c i j). Qed.
 Print Assumptions C06_q2c_c2q_adjoint.
+
+(* ---- levels >= 2 ---- *)
+(* FWD_J2PLUS.backward / INV_J2PLUS.backward reuse colifilt / coldfilt with the a and b filters EXCHANGED: right when the
+   b filter is the a filter reversed.  Every even filter length m, every column length r = 0 mod 4 (also shorter than the
+   filter), both sampling layouts (pos), any signal x and cotangent g. *)
+Theorem C06_coldfilt_colifilt_adjoint :
+  forall (R:Type) (Op:Ops R) (Rth:RingOk Op) m r (ha hb x g:Z->R) (pos:bool),
+  2 <= m -> m mod 2 = 0 -> 0 < r -> r mod 4 = 0 -> (forall j, 0 <= j < m -> hb j = ha (m-1-j)) ->
+  rmul Op (radd Op (r1 Op) (r1 Op)) (dot Op (r/2) (ref_coldfilt Op m r ha hb x pos) g)
+  = rmul Op (radd Op (r1 Op) (r1 Op)) (dot Op r x (ref_colifilt Op m (r/2) hb ha g pos)).
+Proof. intros R Op Rth m r ha hb x g pos H1 H2 H3 H4 H5. exact (coldfilt_colifilt_adjoint2 Op Rth m r ha hb x g pos H1 H2 H3 H4 H5). Qed.
+Print Assumptions C06_coldfilt_colifilt_adjoint.
+Corollary C06_coldfilt_colifilt_adjoint_Z :
+  forall m r (ha hb x g:Z->Z) (pos:bool),
+  2 <= m -> m mod 2 = 0 -> 0 < r -> r mod 4 = 0 -> (forall j, 0 <= j < m -> hb j = ha (m-1-j)) ->
+  dot ZOps (r/2) (ref_coldfilt ZOps m r ha hb x pos) g = dot ZOps r x (ref_colifilt ZOps m (r/2) hb ha g pos).
+Proof. intros m r ha hb x g pos H1 H2 H3 H4 H5. pose proof (coldfilt_colifilt_adjoint2 ZOps ZOk m r ha hb x g pos H1 H2 H3 H4 H5) as H. cbn [rmul radd r1 ZOps] in H. lia. Qed.
+Print Assumptions C06_coldfilt_colifilt_adjoint_Z.
+
+(* on the model of the code (column pass; the flag hp is the code's `highpass' argument) *)
+Theorem C06_dfilt_ifilt_adjoint_col :
+  forall (R:Type) (Op:Ops R) (Rth:RingOk Op) (x G:@ten R) L (HA HB:Z->R) (hp:bool),
+  2 <= L -> L mod 2 = 0 -> 4 <= tH x -> tH x mod 4 = 0 -> 1 <= tW x -> 0 < tC x ->
+  tN G = tN x -> tC G = tC x -> tH G = tH x / 2 -> tW G = tW x ->
+  (forall j, 0 <= j < L -> HB j = HA (L-1-j)) ->
+  is_ok (dfilt Op 2 x L (rev_filt L HA) (rev_filt L HB) hp) (fun y =>
+  is_ok (ifilt Op 2 G L (rev_filt L HB) (rev_filt L HA) hp) (fun dx =>
+    tH y = tH G /\ tH dx = tH x /\
+    forall n c j, 0 <= c < tC x -> 0 <= j < tW x ->
+      let two := radd Op (r1 Op) (r1 Op) in
+      rmul Op two (dot Op (tH G) (fun k => tf y n c k j) (fun k => tf G n c k j))
+      = rmul Op two (dot Op (tH x) (fun i => tf x n c i j) (fun i => tf dx n c i j)))).
+Proof. exact @dfilt_ifilt_adjoint_col. Qed.
+Print Assumptions C06_dfilt_ifilt_adjoint_col.
+
+(* the hypothesis holds, exactly, for every shipped q-shift table (h0a/h0b, h1a/h1b, g0a/g0b, g1a/g1b, h2a/h2b, g2a/g2b),
+   tables regenerated from the .npz files on every run *)
+Theorem C06_tables_revpair : qshift_revpair = true.
+Proof. exact (proj1 (proj2 (proj2 (proj2 (proj2 tables_ok))))). Qed.
+Print Assumptions C06_tables_revpair.
+
